@@ -149,14 +149,6 @@ func regStd() {
 		j := App("str_join", SStr, xa, xs.Len, sep)
 		st.Fact(Implies(Eq(xs.Len, IntLit(0)), Eq(j, StrLit(""))))
 		st.Fact(Implies(Eq(xs.Len, IntLit(1)), Eq(j, Select(xa, IntLit(0)))))
-		// round trip: Split(Join(xs, sep), sep) == xs when xs is non-empty and
-		// no element contains sep (library fact, checked by axiom sanity)
-		qi := &Term{Op: "qi", S: SInt}
-		inRange := And(Le(IntLit(0), qi), Lt(qi, xs.Len))
-		noSep := quant("forall", "qi", Implies(inRange, Not(Builtin("str.contains", SBool, sel(xa, qi), sep))))
-		sp := App("str_split", SArr(SInt, SStr), j, sep)
-		same := quant("forall", "qi", Implies(inRange, Eq(sel(sp, qi), sel(xa, qi))))
-		st.Fact(Implies(And(Ge(xs.Len, IntLit(1)), Gt(StrLen(sep), IntLit(0)), noSep), And(Eq(App("str_split_len", SInt, j, sep), xs.Len), same)))
 		return one(st, j)
 	})
 	regEnv("strings.Split", "strings.Split(s, sep): symbolic slice split(s,sep), len>=1 for non-empty sep; Split(\"\",sep)==[\"\"]; inverse of Join (lemma axiom)", func(ex *Executor, st *State, c *callCtx) []callResult {
@@ -178,6 +170,34 @@ func regStd() {
 		st.Fact(Implies(isNilT(err), nonNil(tok)))
 		st.Emit("CallFuncValue", append([]Value{StrLit("oauth2.Exchange")}, c.Args...), []Value{tok, err}, ex.pos(c.Pos))
 		return one(st, &TupleV{V: []Value{tok, err}})
+	})
+	regEnv("golang.org/x/crypto/bcrypt.CompareHashAndPassword", "bcrypt.CompareHashAndPassword(h,p)==nil <=> hash_ok(h,p)", func(ex *Executor, st *State, c *callCtx) []callResult {
+		h, p := ex.bytesTerm(st, c.Args[0]), ex.bytesTerm(st, c.Args[1])
+		err := ex.freshErr(st, "bcrypt")
+		st.Fact(Eq(isNilT(err), App("hash_ok", SBool, h, p)))
+		return one(st, err)
+	})
+	regEnv("golang.org/x/crypto/bcrypt.GenerateFromPassword", "bcrypt.GenerateFromPassword(p,cost): err==nil => result == hash_of(p,salt) with hash_ok(result,p)", func(ex *Executor, st *State, c *callCtx) []callResult {
+		p := ex.bytesTerm(st, c.Args[0])
+		err := ex.freshErr(st, "bcryptgen")
+		salt := ex.Fresh("salt", SInt)
+		h := App("hash_of", SStr, p, salt)
+		st.Fact(App("hash_ok", SBool, h, p))
+		st.Fact(Gt(StrLen(h), IntLit(0)))
+		res := ex.Fresh("bcrypthash", SStr)
+		st.Fact(Implies(isNilT(err), Eq(res, h)))
+		return one(st, &TupleV{V: []Value{&BytesV{T: res}, err}})
+	})
+	regEnv("github.com/pquerna/otp/totp.Validate", "totp.Validate(code, secret) = totp_ok(code, secret) (uninterpreted; constant within a request)", func(ex *Executor, st *State, c *callCtx) []callResult {
+		return one(st, App("totp_ok", SBool, ex.asTerm(st, c.Args[0]), ex.asTerm(st, c.Args[1])))
+	})
+	regEnv("github.com/pquerna/otp/totp.Generate", "totp.Generate(opts): a key with a fresh secret, or an error", func(ex *Executor, st *State, c *callCtx) []callResult {
+		k, err := ex.freshRef(st, "totpkey"), ex.freshErr(st, "totpgen")
+		st.Fact(Implies(isNilT(err), nonNil(k)))
+		return one(st, &TupleV{V: []Value{k, err}})
+	})
+	regEnv("(*github.com/pquerna/otp.Key).Secret", "Key.Secret(): the key's secret (function of the key)", func(ex *Executor, st *State, c *callCtx) []callResult {
+		return one(st, App("totp_secret_of", SStr, ex.asTerm(st, c.Args[0])))
 	})
 	regEnv("sort.SearchStrings", "sort.SearchStrings(a, x): some index in [0, len(a)] (binary search result not modelled further)", func(ex *Executor, st *State, c *callCtx) []callResult {
 		n := ex.Fresh("searchidx", SInt)
